@@ -619,7 +619,7 @@ def same_int(a, b) -> bool:
     def known_len(t):
         if isinstance(t, tuple) and len(t) == 4 and t[0] == "call" and t[1] == "len" and len(t[2]) == 1:
             n_ = length_of(t[2][0])
-            if n_ is not None:
+            if n_ is not None and n_ != t:
                 return rewrite(n_, known_len)
         return None
     a, b = rewrite(norm(a), known_len), rewrite(norm(b), known_len)
@@ -661,6 +661,8 @@ def length_of(it, lemmas=None):
         return it[2] if it[1] == K(0) else sub(it[2], it[1])
     if it[0] in ("list", "tuple"):
         return list_length(it)
+    if it[0] == "sym":
+        return ("call", "len", (it,), ())           # a named sequence has len(name) elements
     if it[0] == "call":
         name = it[1].split(".")[-1]
         if name == "enumerate" and it[2]:
